@@ -26,11 +26,11 @@ func C09_reuse() {
 	var body string
 	switch sym.Choice("selection kind", 3) {
 	case 0:
-		body = "{s a" + dirs + "}"
+		body = "{s a" + dirs + " z:s}"
 	case 1:
-		body = "{s ...on Query" + dirs + "{a}}"
+		body = "{s ...on Query" + dirs + "{a} z:s}"
 	default:
-		body = "{s ...F" + dirs + "} fragment F on Query{a}"
+		body = "{s ...F" + dirs + " z:s} fragment F on Query{a}"
 	}
 	doc := "query($s:Boolean=" + b2s(ds) + " $i:Boolean=" + b2s(di) + ")" + body
 	exe, err := root.ParseExecutableString(doc)
@@ -60,6 +60,8 @@ func C09_reuse() {
 			}
 		}
 		sym.Assert(ran == included, "resolver runs iff included")
+		_, hasZ := data["z"]
+		sym.Assert(hasZ, "the selection written after it is unaffected")
 	}
 }
 
